@@ -747,6 +747,9 @@ type c08Run struct {
 	// Parked counts calls parked at a schedule point under the cache; Blocked counts calls that neither
 	// returned nor parked within the grace period (waiting for a lock held by a parked call).
 	Parked, Blocked int
+	// Hung names the calls that never returned although every other client had returned from its last call,
+	// no call was parked any more and the gate was open.
+	Hung string
 }
 
 type c08Client struct {
@@ -927,7 +930,11 @@ func c08Execute(cs *c08Case, be c08Backend, st *c08Stack, rng *kit.Rand, free bo
 		}
 		fin := make(chan struct{})
 		go func() { wg.Wait(); close(fin) }()
-		tm := time.NewTimer(c08StepTimeout)
+		patience := c08StepTimeout
+		if run.Hung != "" {
+			patience = time.Second // the hung calls are not coming back; their goroutines are abandoned
+		}
+		tm := time.NewTimer(patience)
 		defer tm.Stop()
 	wait:
 		for {
@@ -939,11 +946,21 @@ func c08Execute(cs *c08Case, be c08Backend, st *c08Stack, rng *kit.Rand, free bo
 					close(e.park.resume)
 				}
 			case <-tm.C:
-				if run.Aborted == "" {
+				if run.Aborted == "" && run.Hung == "" {
 					run.Aborted = "clients did not finish"
 				}
 				break wait
 			}
+		}
+		if run.Hung != "" {
+			// hung client goroutines may still append to their records: leave those alone
+			for _, c := range clients {
+				if c.state == "" {
+					run.Recs = append(run.Recs, c.recs...)
+				}
+			}
+			sort.SliceStable(run.Recs, func(i, j int) bool { return run.Recs[i].Call < run.Recs[j].Call })
+			return
 		}
 		for _, c := range clients {
 			run.Recs = append(run.Recs, c.recs...)
@@ -993,19 +1010,22 @@ func c08Execute(cs *c08Case, be c08Backend, st *c08Stack, rng *kit.Rand, free bo
 		}
 		return o == c
 	}
-	// await waits until c's running call returned, parked, sits in the apply queue (poll) or - only while a
-	// parked call holds a lock - did none of these within the grace period and is taken to be blocked on
-	// that lock. The grace period only decides which schedules are seen, never a verdict.
+	// await waits until c's running call returned, parked or sits in the apply queue (poll). While a parked
+	// call holds a lock of the layer under test, a call that does none of these within the grace period is
+	// taken to wait for that lock ("blocked") and the schedule goes on; the grace period only decides which
+	// schedules are seen. With no such park outstanding a call gets c08Patience; after that it is "stuck" and
+	// the schedule goes on as well. Blocked and stuck calls that never come back although every park has
+	// been released are judged at the end of the schedule (run.Hung).
 	await := func(c *c08Client, poll func() bool) bool {
 		c.state = "running"
-		hard := time.NewTimer(c08StepTimeout)
-		defer hard.Stop()
-		var grace, tick <-chan time.Time
-		if lockHolders() > 0 {
-			g := time.NewTimer(c08Grace)
-			defer g.Stop()
-			grace = g.C
+		short := lockHolders() > 0
+		d := c08Patience
+		if short {
+			d = c08Grace
 		}
+		wait := time.NewTimer(d)
+		defer wait.Stop()
+		var tick <-chan time.Time
 		if poll != nil {
 			tk := time.NewTicker(100 * time.Microsecond)
 			defer tk.Stop()
@@ -1017,18 +1037,30 @@ func c08Execute(cs *c08Case, be c08Backend, st *c08Stack, rng *kit.Rand, free bo
 				if note(e, c) {
 					return true
 				}
+				if !short && lockHolders() > 0 { // a suspended call got its lock and parked while holding another
+					short = true
+					if !wait.Stop() {
+						select {
+						case <-wait.C:
+						default:
+						}
+					}
+					wait.Reset(c08Grace)
+				}
 			case <-tick:
 				if poll() {
 					return true
 				}
-			case <-grace:
-				c.state = "blocked"
-				run.Blocked++
-				run.Trace = append(run.Trace, fmt.Sprintf("(c%d waits for a lock)", c.sc.Client))
+			case <-wait.C:
+				if lockHolders() > 0 {
+					c.state = "blocked"
+					run.Blocked++
+					run.Trace = append(run.Trace, fmt.Sprintf("(c%d waits for a lock)", c.sc.Client))
+				} else {
+					c.state = "stuck"
+					run.Trace = append(run.Trace, fmt.Sprintf("(c%d does not return)", c.sc.Client))
+				}
 				return true
-			case <-hard.C:
-				run.Aborted = fmt.Sprintf("call of client %d neither returned nor parked", c.sc.Client)
-				return false
 			}
 		}
 	}
@@ -1187,12 +1219,22 @@ func c08Execute(cs *c08Case, be c08Backend, st *c08Stack, rng *kit.Rand, free bo
 			if suspended == 0 {
 				break
 			}
-			// only blocked calls are left: one of them must come back
+			// Only blocked / stuck calls are left: no client is parked any more (a parked client would be a
+			// choice), every other client has returned from its last call. One of them must come back.
+			if gate != nil && gate.Closed() {
+				gate.Open()
+			}
 			select {
 			case e := <-x.events:
 				note(e, nil)
-			case <-time.After(c08StepTimeout):
-				run.Aborted = "suspended calls never came back"
+			case <-time.After(c08HangWait):
+				var who []string
+				for _, c := range clients {
+					if c.state != "" {
+						who = append(who, fmt.Sprintf("c%d %s", c.sc.Client, c.sc.Acts[c.next-1]))
+					}
+				}
+				run.Hung = strings.Join(who, ", ")
 				ok = false
 			}
 			continue
@@ -1228,7 +1270,11 @@ func c08Execute(cs *c08Case, be c08Backend, st *c08Stack, rng *kit.Rand, free bo
 	return run
 }
 
-const c08Grace = 25 * time.Millisecond
+const (
+	c08Grace    = 25 * time.Millisecond
+	c08Patience = 10 * time.Second
+	c08HangWait = 15 * time.Second
+)
 
 // c08ScanStore reads the whole store through the plain interface: every listed key and every key of the
 // key space is fetched with Get. The map is what Get serves; problems are disagreements between List and
@@ -1329,6 +1375,14 @@ func c08Analyse(t testing.TB, r *kit.Result, st *c08Stack, run *c08Run, free boo
 			w[k] = v
 		}
 		return w
+	}
+	if run.Hung != "" {
+		// "a transaction commits ... otherwise it fails": an operation that neither returns nor fails while
+		// nothing it could legitimately wait for is outstanding (all other clients done, no call parked by the
+		// scheduler, state machine gate open) is a violation, with the schedule as witness.
+		r.Violate("C08-operation-hangs", id,
+			fmt.Sprintf("%s: %s never returned although every other client had finished and no call was held back by the scheduler", st.Name, run.Hung), witness(nil))
+		return
 	}
 	if run.Aborted != "" {
 		r.Inconc("%s: %s", id, run.Aborted)
@@ -1954,6 +2008,11 @@ func c08RunCases(t *testing.T, r *kit.Result, st *c08Stack, mode string, n int, 
 		if i%shards != shard || !kit.WantCase(id) {
 			continue
 		}
+		if h := r.Get("violations:C08-operation-hangs"); h >= 3 || (h >= 1 && st.Truth != nil) {
+			// hung calls keep their goroutines and locks; a shared node (raft) is unusable after the first one
+			r.Note("%s: remaining %s cases not run after %d hung operation(s)", st.Name, mode, h)
+			return
+		}
 		rng := kit.NewRand(seed, c08Stream(st.Name, mode)+uint64(i))
 		cs := c08GenCase(rng, st, id, mode)
 		be, cleanup := st.Open(t)
@@ -1975,6 +2034,11 @@ func c08RunCases(t *testing.T, r *kit.Result, st *c08Stack, mode string, n int, 
 				return
 			}
 			run := c08Execute(cs, be, st, rng, mode == "free")
+			if run.Hung != "" {
+				r.Eval(1)
+				c08Analyse(t, r, st, run, mode == "free")
+				return
+			}
 			t0 := c08LastStamp(run)
 			// quiescence: every client has returned from its last call
 			scan, probs, err := c08ScanStore(ctx, be)
